@@ -865,7 +865,7 @@ class Ctx(object):
             ob = Obligation(name, kind, 'refuted', time.time() - t0, 'simplifier', path, mj, 'clause is false on this path', where)
         else:
             hs = self.hyps(inst)
-            verdict, model, backend, reason = discharge(hs, g, timeout or self.run.timeout_ms)
+            verdict, model, backend, reason = discharge(hs, g, timeout or self.run.timeout_ms, refute_first=(expect == 'refuted'))
             mj = model if verdict == 'refuted' else None
             ob = Obligation(name, kind, verdict, time.time() - t0, backend, path, mj, reason, where)
         ob.expect = expect
@@ -1452,10 +1452,117 @@ def _forked(assertions, cpu_s, want_model=False, tactic=None, want_model_terms=F
     return d['r'], d.get('m'), d.get('why', '')
 
 
+class _AssignModel(object):
+    """a model given by an explicit assignment of the free constants and of the uninterpreted applications that occur (found by random search and
+    VERIFIED by evaluation: every hypothesis simplifies to true and the goal to false under it)"""
+    def __init__(self, consts, apps):
+        self.consts, self.apps = consts, apps          # lists of (term, value)
+
+    def eval(self, t, model_completion=False):
+        r = z3.simplify(z3.substitute(t, *self.consts)) if self.consts else z3.simplify(t)
+        for _ in range(6):
+            if not self.apps:
+                break
+            r2 = z3.simplify(z3.substitute(r, *self.apps))
+            if r2.eq(r):
+                break
+            r = r2
+        if model_completion and not (z3.is_rational_value(r) or z3.is_int_value(r) or z3.is_true(r) or z3.is_false(r) or z3.is_algebraic_value(r)):
+            # constants that did not occur in the query: any value will do
+            left = _free_consts([r])
+            if left:
+                r = z3.simplify(z3.substitute(r, *[(c, z3.RealVal(1) if z3.is_real(c) else (z3.IntVal(1) if z3.is_int(c) else z3.BoolVal(False))) for c in left]))
+        return r
+
+
+def _free_consts(fs):
+    seen, out, stack = set(), [], list(fs)
+    while stack:
+        t = stack.pop()
+        k = t.get_id()
+        if k in seen:
+            continue
+        seen.add(k)
+        if z3.is_quantifier(t):
+            continue
+        if z3.is_app(t):
+            if t.num_args() == 0 and t.decl().kind() == z3.Z3_OP_UNINTERPRETED:
+                out.append(t)
+            stack.extend(t.children())
+    return out
+
+
+def _uf_apps(fs):
+    seen, out, stack = set(), [], list(fs)
+    while stack:
+        t = stack.pop()
+        k = t.get_id()
+        if k in seen:
+            continue
+        seen.add(k)
+        if z3.is_app(t) and not z3.is_quantifier(t):
+            if t.num_args() > 0 and t.decl().kind() == z3.Z3_OP_UNINTERPRETED:
+                out.append(t)
+            stack.extend(t.children())
+    return out
+
+
+def _random_refute(hyps, goal, tries=3):
+    """cheap search for a counter-model of  hyps => goal : the constants and uninterpreted applications that occur only in the GOAL get random
+    values, z3 completes the assignment so that every hypothesis holds (without the negated goal the query is easy), and the goal is then EVALUATED in
+    that model.  Finds the counterexamples of failed polynomial identities, where the nonlinear solver's own model search is slow."""
+    import random
+    hyps = list(hyps)
+    if z3.is_quantifier(goal) or any(z3.is_quantifier(h) for h in hyps):
+        return None
+    hc = set(t.get_id() for t in _free_consts(hyps))
+    ha = set(t.get_id() for t in _uf_apps(hyps))
+    gconsts = [t for t in _free_consts([goal]) if t.get_id() not in hc]
+    gapps = [t for t in _uf_apps([goal]) if t.get_id() not in ha]
+    if len(gconsts) + len(gapps) > 600:
+        return None
+    rnd = random.Random(12345)
+    pool = [Fraction(1, 2), Fraction(1), Fraction(2), Fraction(3), Fraction(3, 2), Fraction(5, 7), Fraction(7, 3), Fraction(11, 5), Fraction(1, 3), Fraction(13, 4)]
+
+    def val(t, salt):
+        if z3.is_bool(t):
+            return z3.BoolVal(rnd.random() < 0.5)
+        if z3.is_int(t):
+            return z3.IntVal(rnd.choice([1, 2, 3, 4, 5]))
+        if z3.is_real(t):
+            return z3.RealVal(str(rnd.choice(pool) + Fraction(rnd.randint(0, 40), salt)))
+        return None
+    for k in range(tries):
+        sl = z3.Solver()
+        sl.set('timeout', 3000)
+        for h in hyps:
+            sl.add(h)
+        ok = True
+        for t in gconsts:
+            v_ = val(t, 41)
+            if v_ is None:
+                ok = False
+                break
+            sl.add(t == v_)
+        if not ok:
+            return None
+        for t in gapps:
+            v_ = val(t, 43)
+            if v_ is not None:
+                sl.add(t == v_)
+        if sl.check() != z3.sat:
+            continue
+        m = sl.model()
+        g = m.eval(goal, model_completion=True)
+        if z3.is_false(g):
+            return m
+    return None
+
+
 _DUMPN = [0]
 
 
-def discharge(hyps, goal, timeout_ms, quick=False):
+def discharge(hyps, goal, timeout_ms, quick=False, refute_first=False):
     """returns verdict ('proved'|'refuted'|'undecided'), model (concretised dict) or None, backend, reason.
     (A) nonlinear sub-terms abstracted to fresh constants + sign lemmas: linear + UF, in process, only `unsat` is used
         (exact when the query has no nonlinear term);
@@ -1478,8 +1585,25 @@ def discharge(hyps, goal, timeout_ms, quick=False):
             n0 = _num(dlt)
             if n0 is not None and n0 == 0:
                 return 'proved', None, ver + ' simplifier (polynomial normal form)', ''
+            if not quick and len(dlt.sexpr()) > 20000:
+                refute_first = True          # a large polynomial that does not cancel: a counter-model is far cheaper to find than a proof attempt
     except z3.Z3Exception:
         pass
+    if refute_first and not quick:
+        # deliberately wrong clause (canary): look for a counter-model before spending time on proof attempts
+        try:
+            am = _random_refute(hyps, goal)
+            if am is not None:
+                c0 = _CTX[0]
+                mm = None
+                if c0 is not None:
+                    try:
+                        mm = c0.concretise(am)
+                    except Exception:
+                        mm = None
+                return 'refuted', mm, ver + ' (counter-model found by random search, verified by evaluation)', ''
+        except z3.Z3Exception:
+            pass
     try:
         c = _CTX[0]
         abst = c.__dict__.setdefault('_abst', _Abstraction()) if c is not None else None
@@ -1513,6 +1637,19 @@ def discharge(hyps, goal, timeout_ms, quick=False):
                 sb.add(h)
             if sb.check() == z3.unsat:
                 return 'proved', None, ver + ' (if-then-else named, products uninterpreted)', ''
+    except z3.Z3Exception:
+        pass
+    # (R) random search for a verified counter-model (cheap; catches failed polynomial identities whose models the nonlinear solver finds slowly)
+    try:
+        am = _random_refute(hyps, goal)
+        if am is not None:
+            mm = None
+            if c is not None:
+                try:
+                    mm = c.concretise(am)
+                except Exception:
+                    mm = None
+            return 'refuted', mm, ver + ' (counter-model found by random search, verified by evaluation)', ''
     except z3.Z3Exception:
         pass
     cpu = max(2, timeout_ms // 1000)
